@@ -94,6 +94,7 @@ class Recorder:
         self.notes: list[str] = []
         self.exhaustive: dict[str, Any] = {}
         self.extra: dict[str, Any] = {}
+        self.xproc: dict[str, Any] = {}     # observations that must agree across shard processes (different hash seeds)
         self.known = Known()
 
     # -- per case -----------------------------------------------------------------------------
@@ -154,6 +155,7 @@ class Recorder:
             'notes': self.notes,
             'exhaustive': self.exhaustive,
             'extra': self.extra,
+            'xproc': self.xproc,
         }
 
     def merge(self, other: dict) -> None:
@@ -174,6 +176,15 @@ class Recorder:
         self.notes.extend(other['notes'])
         for k, v in other['exhaustive'].items():
             self.exhaustive[k] = v
+        for k, v in other.get('xproc', {}).items():
+            if k in self.xproc and self.xproc[k]['value'] != v['value']:
+                self.violations.append({
+                    'property': self.prop, 'engine': 'cross-process', 'signature': v.get('signature', f'{self.prop}:differs-across-processes'),
+                    'all_signatures': [v.get('signature', f'{self.prop}:differs-across-processes')],
+                    'detail': f'processes with different PYTHONHASHSEED disagree: {self.xproc[k]["value"]!r} vs {v["value"]!r}',
+                    'case': v.get('case'), 'observed': {'a': self.xproc[k], 'b': v}, 'flaky': False})
+            else:
+                self.xproc.setdefault(k, v)
         for k, v in other.get('extra', {}).items():
             if isinstance(v, (int, float)) and isinstance(self.extra.get(k, 0), (int, float)):
                 self.extra[k] = self.extra.get(k, 0) + v
